@@ -74,6 +74,7 @@ def forged_then_genuine():
             return
         sx.register_keys([1, 0x6B3343CF, 0])
         sx.register_keys(range(0x40))
+        cm.DET.n = 0  # the server's own "random" IDs must not differ between re-executions of a path
         cfg = QuicConfiguration(is_client=False)
         cfg.load_cert_chain(os.path.join(cm.REPO, "tests", "ssl_cert.pem"), os.path.join(cm.REPO, "tests", "ssl_key.pem"))
         conn = QuicConnection(configuration=cfg, original_destination_connection_id=bytes(8))
